@@ -20,31 +20,40 @@ SameEvents(ml, gl) ==
 \* grammar that the implementation chooses to accept is not an alarm as long as the result is consistent and stable
 \* (a more lenient lexer or grammar does not break the property).
 Agree(r, f) == (r.vclass = "acc") = (Verdict(f) = "acc")
+SoftCauses == {"Base", "Empty", "NonEmpty", "CloseGC"}
+\* DIAGNOSTICS, never a verdict: the hook trace of validator events and the lexer's token stream are the suite's own
+\* instrumentation of lex.go; a refactoring that merges or reorders validators, or lexes differently, changes them without
+\* touching the property.  Divergences are counted (SUMMARY.div) so that a stale model is noticed.
+Diverges(r, f) == Agree(r, f) /\ ~r.weak /\ (~SameEvents(f.log, r.events) \/ (r.vclass = "acc" /\ r.hastoks /\ r.ltoks # r.want))
 Clause(r, f) ==
   CASE r.ev # "ok" -> r.ev
     [] r.vclass = "panic" -> "panic"
     [] ~r.errok -> "error-not-renderable"
-    [] r.vclass # "acc" /\ Verdict(f) = "acc" -> "verdict:" \o r.vclass \o "-want-acc"
-    [] r.vclass = "acc" /\ f.st = "acc" /\ f.sem # "ok" -> "verdict:acc-want-rej"
-    [] Agree(r, f) /\ ~r.weak /\ ~SameEvents(f.log, r.events) -> "validator-events"
+    \* (want-acc only with full token knowledge: the real lexer's tokens carry no values, so ring closure cannot be decided from them)
+    [] r.hastoks /\ r.vclass # "acc" /\ Verdict(f) = "acc" -> "verdict:" \o r.vclass \o "-want-acc"
+    \* the statement lists mixed dimensions, unclosed / short rings, one-point lines and bad point arity as what must be rejected;
+    \* the further rejections of lex.go (a base-type member of a typed collection must be EMPTY, an EMPTY base type is XY, a
+    \* collection whose members disagree with the layout it ended up with) are consistent readings, not the only ones
+    [] r.vclass = "acc" /\ f.st = "acc" /\ f.sem # "ok" /\ f.why \notin SoftCauses -> "verdict:acc-want-rej"
     [] r.vclass = "acc" /\ Agree(r, f) /\ r.l # FinalLayout(f) -> "layout"
     [] r.vclass = "acc" /\ ~r.uniform -> "mixed-layouts-in-result"
     [] r.vclass = "acc" /\ (\E k \in DOMAIN r.wf : ~FG!WellFormedObj(r.wf[k])) -> "ill-formed-result"   \* C01: "any decoder"
     [] r.vclass = "acc" /\ Agree(r, f) /\ r.hastoks /\ r.tree # Tree(r.toks) -> "tree"
     [] r.vclass = "acc" /\ (r.tree2 # r.tree \/ r.l2 # r.l) -> "reencode-reparse"
-    [] r.vclass = "acc" /\ Agree(r, f) /\ r.hastoks /\ r.ltoks # r.want -> "lexer-tokens"
     [] OTHER -> "ok"
-VARIABLES i, bad
-Init == i = 1 /\ bad = 0
+VARIABLES i, bad, div
+Init == i = 1 /\ bad = 0 /\ div = 0
 \* ring closure with or without the Z ordinate: the real parser must agree with ONE of the two readings throughout a parse
-ClauseAny(r) == LET c1 == Clause(r, Run(S0z(TRUE), r.toks)) IN
+ClauseAny(r) == LET c1 == Clause(r, Run(S0z("xyz"), r.toks)) IN
                 IF c1 = "ok" THEN "ok"
-                ELSE IF Clause(r, Run(S0z(FALSE), r.toks)) = "ok" THEN "ok" ELSE c1
+                ELSE IF Clause(r, Run(S0z("xy"), r.toks)) = "ok" THEN "ok"
+                ELSE IF Clause(r, Run(S0z("all"), r.toks)) = "ok" THEN "ok" ELSE c1
 Next == /\ i <= Len(Recs)
         /\ LET r == Recs[i]  c == ClauseAny(r) IN
            /\ IF c = "ok" THEN TRUE
               ELSE PrintT(<<"VIOL", ToJson([i |-> i, sig |-> "wkt|" \o c, text |-> r.text])>>)
            /\ bad' = IF c = "ok" THEN bad ELSE bad + 1
+           /\ div' = IF c = "ok" /\ Diverges(r, Run(S0, r.toks)) THEN div + 1 ELSE div
         /\ i' = i + 1
-Done == i = Len(Recs) + 1 => PrintT(<<"SUMMARY", ToJson([n |-> Len(Recs), bad |-> bad])>>)
+Done == i = Len(Recs) + 1 => PrintT(<<"SUMMARY", ToJson([n |-> Len(Recs), bad |-> bad, div |-> div])>>)
 ====
